@@ -139,7 +139,8 @@ def scenario(args):
             else:
                 ev.append((e["t"], 4, dict(k="mcast", n=e["src"], f=f, lvl=e["level"] if e["level"] >= 0 else e["lvl"])))
         elif e["k"] == "ret" and e["api"] in ("write", "multicast"):
-            ev.append((e["t"], 4, dict(k="ret", n=addr[e["n"]], res=bool(e["res"]), exc=e["exc"])))
+            ev.append((e["t"], 4, dict(k="ret", n=addr[e["n"]], res=bool(e["res"]), exc=e["exc"], proj=ns.projs[e["proj"] - 1],
+                                       lvl=e["lvl"], amc=e["amc"])))
         elif e["k"] == "deq":
             ev.append((e["t"], 4, dict(k="deq", n=addr[e["n"]], f=dict(src=e["from"], dst=e["to"], typ=e["type"], rsv=0, id=e["id"], msg=e["msg"]))))
         elif e["k"] in ("crash", "hang"):
@@ -163,9 +164,11 @@ def scenario(args):
     for (t, nm, pipe, data) in pops:
         ev.append((t // 1000, 3, dict(k="rxpop", n=addr[nm], f=frame_of(data), pipe=pipe)))
     ev.sort(key=lambda x: (x[0], x[1]))
-    out = [dict(e, t=t) for (t, _, e) in ev] + [dict(k="end")]
+    final = [dict(n=a, proj=net.rfapi.state(ns.chips[nm]), lvl=ns.objs[nm].multicast_level, amc=bool(ns.objs[nm].allow_multicast))
+             for a, nm in name.items()]
+    out = [dict(e, t=t) for (t, _, e) in ev] + [dict(k="end", nodes=final)]
     # the callers' own ids: the model compares whole frames, the write event carries the id the header got
-    return dict(topo=topo, ev=out, meta=dict(topo=topo, kind=kind, spec=[list(map(str, x)) for x in spec] if kind != "backlog" else str(spec),
+    return dict(topo=topo, ev=out, prefix=ns.prefix, suffix=ns.suffix, meta=dict(topo=topo, kind=kind, spec=[list(map(str, x)) for x in spec] if kind != "backlog" else str(spec),
                                              faults=[dict(r) for r in faults], seed=seed, jitter=jitter))
 
 
@@ -254,7 +257,7 @@ def judge(traces, wd_name="netnode"):
             f.write(CFG % (", ".join(map(str, tree)), ", ".join(map(str, relays)), ", ".join(map(str, nomc))))
         sub = os.path.join(wd, topo)
         os.makedirs(sub, exist_ok=True)
-        v, st = tlc.validate("TraceNetNode", cfg, jsonable([dict(ev=traces[i]["ev"]) for i in idx]), wd=sub, shard=400, timeout=1800)
+        v, st = tlc.validate("TraceNetNode", cfg, jsonable([dict(ev=traces[i]["ev"], prefix=traces[i].get("prefix", net.PREFIX), suffix=traces[i].get("suffix", net.SUFFIX)) for i in idx]), wd=sub, shard=400, timeout=1800)
         for i, x in zip(idx, v):
             res[i] = x
         for k in stats:
